@@ -68,6 +68,9 @@ type c02Case struct {
 	// InCase: leaf x is written inside 'choice xch { case xk { ... } }' (a relative leafref path then leaves the case);
 	// Mandatory: leaf x states mandatory true (and no default of its own): it has no default then, whatever its typedefs say
 	InCase    bool `json:"in_case,omitempty"`
+	// InCase2 (with InCase): the case holds a second choice and the leaf sits in a case of that one ("case"), or directly
+	// in the inner choice as its own shorthand case ("short"): neither level exists in data
+	InCase2 string `json:"in_case2,omitempty"`
 	Mandatory bool `json:"mandatory,omitempty"`
 	Decoy    bool        `json:"decoy,omitempty"` // a sibling container defines unrelated typedefs with the same names first
 	Lo       int         `json:"lo"` // bounds of the base type as far as the generator uses them
@@ -307,6 +310,9 @@ func c02Gen(t *rapid.T) c02Case {
 		}
 	}
 	c.InCase = rapid.IntRange(0, 3).Draw(t, "in-case") == 0
+	if c.InCase {
+		c.InCase2 = rapid.SampledFrom([]string{"", "case", "short"}).Draw(t, "in-case2")
+	}
 	c.Mandatory = c.RefineUse == 0 && rapid.IntRange(0, 4).Draw(t, "mandatory") == 0
 	return c
 }
@@ -504,7 +510,14 @@ func (c c02Case) leafYang(ind string) string {
 	}
 	b.WriteString(ind + "}\n")
 	if c.InCase {
-		return ind + "choice xch {\n" + ind + " case xk {\n" + b.String() + ind + " }\n" + ind + "}\n"
+		inner := b.String()
+		switch c.InCase2 {
+		case "case":
+			inner = ind + "  choice xch2 {\n" + ind + "   case xk2 {\n" + inner + ind + "   }\n" + ind + "  }\n"
+		case "short":
+			inner = ind + "  choice xch2 {\n" + inner + ind + "  }\n"
+		}
+		return ind + "choice xch {\n" + ind + " case xk {\n" + inner + ind + " }\n" + ind + "}\n"
 	}
 	return b.String()
 }
@@ -759,6 +772,9 @@ func c02Run(c c02Case, o *hx.Obs) {
 	o.Class("decoy=%v", c.Decoy)
 	if c.InCase {
 		o.Class("the leaf sits in a case")
+		if c.InCase2 != "" {
+			o.Class("the leaf sits in a case of a choice in a case (%s)", c.InCase2)
+		}
 	}
 	if c.Mandatory && !c.LeafList && c.Lvls[len(c.Lvls)-1].Default == "" {
 		o.Class("the leaf is mandatory")
